@@ -17,6 +17,25 @@ import (
 // Locals' names never appear, so renaming and re-ordering independent code does not change it.
 func Sig(v ssa.Value) string { return sig(v, 0, map[ssa.Value]bool{}) }
 
+// sigSubst: while the body of an entered helper is rendered, its parameters are rendered as
+// the signatures of the arguments at the call site (see ExpandAtom).
+var sigSubst = map[*ssa.Parameter]string{}
+
+// WithSubst runs f with the given parameter substitution added to the current one.
+func WithSubst(sub map[*ssa.Parameter]string, f func()) {
+	old := sigSubst
+	n := map[*ssa.Parameter]string{}
+	for k, v := range old {
+		n[k] = v
+	}
+	for k, v := range sub {
+		n[k] = v
+	}
+	sigSubst = n
+	defer func() { sigSubst = old }()
+	f()
+}
+
 func sig(v ssa.Value, depth int, seen map[ssa.Value]bool) string {
 	if v == nil {
 		return "?"
@@ -39,6 +58,9 @@ func sig(v ssa.Value, depth int, seen map[ssa.Value]bool) string {
 		}
 		return x.Value.ExactString()
 	case *ssa.Parameter:
+		if sub, ok := sigSubst[x]; ok {
+			return sub
+		}
 		fn := x.Parent()
 		for i, p := range fn.Params {
 			if p == x {
@@ -57,6 +79,11 @@ func sig(v ssa.Value, depth int, seen map[ssa.Value]bool) string {
 		return "func:" + FuncName(x)
 	case *ssa.Call:
 		name := CalleeName(x)
+		if name == "fmt.Sprintf" {
+			if c, ok := sprintfConcat(x, depth, seen); ok {
+				return c
+			}
+		}
 		if name == "" {
 			name = "dyn(" + sig(x.Call.Value, depth+1, seen) + ")"
 		}
@@ -104,7 +131,18 @@ func sig(v ssa.Value, depth int, seen map[ssa.Value]bool) string {
 	case *ssa.Lookup:
 		return sig(x.X, depth+1, seen) + "[" + sig(x.Index, depth+1, seen) + "]"
 	case *ssa.Slice:
-		return sig(x.X, depth+1, seen) + "[:]"
+		lo, hi := "", ""
+		if n, ok := ConstInt(x.Low); ok && x.Low != nil {
+			lo = fmt.Sprint(n)
+		} else if x.Low != nil {
+			lo = sig(x.Low, depth+1, seen)
+		}
+		if n, ok := ConstInt(x.High); ok && x.High != nil {
+			hi = fmt.Sprint(n)
+		} else if x.High != nil {
+			hi = sig(x.High, depth+1, seen)
+		}
+		return sig(x.X, depth+1, seen) + "[" + lo + ":" + hi + "]"
 	case *ssa.Convert:
 		return sig(x.X, depth, seen)
 	case *ssa.ChangeType:
@@ -250,4 +288,110 @@ func CondStrings(b *ssa.BasicBlock) []string {
 		out = append(out, f.String())
 	}
 	return out
+}
+
+
+// VariadicElems: the elements of a variadic argument pack built at the call site
+// (slice of a fresh array with one store per index), in index order.
+func VariadicElems(v ssa.Value) ([]ssa.Value, bool) {
+	sl, ok := v.(*ssa.Slice)
+	if !ok {
+		if c, isC := v.(*ssa.Const); isC && c.Value == nil {
+			return nil, true // no variadic arguments
+		}
+		return nil, false
+	}
+	al, ok := sl.X.(*ssa.Alloc)
+	if !ok {
+		return nil, false
+	}
+	arr, ok := al.Type().Underlying().(*types.Pointer).Elem().Underlying().(*types.Array)
+	if !ok {
+		return nil, false
+	}
+	out := make([]ssa.Value, arr.Len())
+	for _, ref := range *al.Referrers() {
+		ia, ok := ref.(*ssa.IndexAddr)
+		if !ok {
+			continue
+		}
+		idx, isC := ConstInt(ia.Index)
+		if !isC || idx < 0 || idx >= arr.Len() {
+			return nil, false
+		}
+		for _, r2 := range *ia.Referrers() {
+			if st, ok := r2.(*ssa.Store); ok && st.Addr == ssa.Value(ia) {
+				if out[idx] != nil {
+					return nil, false
+				}
+				out[idx] = st.Val
+			}
+		}
+	}
+	for _, e := range out {
+		if e == nil {
+			return nil, false
+		}
+	}
+	return out, true
+}
+
+// sprintfConcat renders fmt.Sprintf("lit%slit", a) as the concatenation ("lit" + a + "lit")
+// when the format has only %s verbs and every operand is a plain string, so that the two
+// spellings of the same string have the same signature.
+func sprintfConcat(x *ssa.Call, depth int, seen map[ssa.Value]bool) (string, bool) {
+	if len(x.Call.Args) != 2 {
+		return "", false
+	}
+	format, ok := ConstString(x.Call.Args[0])
+	if !ok {
+		return "", false
+	}
+	elems, ok := VariadicElems(x.Call.Args[1])
+	if !ok {
+		return "", false
+	}
+	var parts []string
+	rest := format
+	ei := 0
+	for {
+		i := strings.Index(rest, "%")
+		if i < 0 {
+			break
+		}
+		if i+1 >= len(rest) || rest[i+1] != 's' || ei >= len(elems) {
+			return "", false
+		}
+		if i > 0 {
+			parts = append(parts, fmt.Sprintf("%q", rest[:i]))
+		}
+		e := elems[ei]
+		if mi, isMI := e.(*ssa.MakeInterface); isMI {
+			e = mi.X
+		}
+		b, isB := e.Type().Underlying().(*types.Basic)
+		if !isB || b.Info()&types.IsString == 0 {
+			return "", false
+		}
+		if ms := types.NewMethodSet(e.Type()); ms.Lookup(nil, "String") != nil || ms.Lookup(nil, "Error") != nil {
+			return "", false
+		}
+		parts = append(parts, sig(e, depth+1, seen))
+		ei++
+		rest = rest[i+2:]
+	}
+	if rest != "" {
+		parts = append(parts, fmt.Sprintf("%q", rest))
+	}
+	if ei != len(elems) || len(parts) == 0 {
+		return "", false
+	}
+	if len(parts) == 1 {
+		return parts[0], true
+	}
+	out := parts[0]
+	for _, p := range parts[1:] {
+		out = "(" + out + " + " + p + ")"
+	}
+	return out, true
 }
